@@ -158,6 +158,9 @@ def execute(case, ctx):
                 ctx.violate("query-raised", step, {"res": r})
                 return
             got = r[1] if len(Q) > 1 else [r[1]]
+            if not isinstance(got, list) or len(got) != len(Q):
+                ctx.violate("result-length", step, {"want": len(Q), "got": len(got) if isinstance(got, list) else "no list"})
+                return
             if npname == "Clusters":
                 imp = P.mab._imp
                 labels = imp.kmeans.labels_
